@@ -1,6 +1,959 @@
 package main
 
-// replayOnRealCode: placeholder until the executable-contract generator lands.
-func (g *Gen) replayOnRealCode(o *Oblig, work, repo, verif string) map[string]any {
+// Executable contracts: the same contract text that is compiled to SMT for the
+// proof is compiled to Go for the replay.  A generated in-package test builds
+// the inputs from the solver's model, evaluates `requires`, calls the real
+// function and evaluates every `ensures` (bounded quantifiers become loops,
+// old(x) a deep copy).  If the model does not reproduce, the same executable
+// contract is run over a seeded small-scope enumeration of inputs.  The test is
+// injected with `go test -overlay`; nothing is written into /repo.
+
+import (
+	"context"
+	"encoding/json"
+	"fmt"
+	"go/types"
+	"math/big"
+	"os"
+	"os/exec"
+	"path/filepath"
+	"strconv"
+	"strings"
+	"time"
+
+	"golang.org/x/tools/go/ssa"
+)
+
+// ---- s-expression parsing of (get-value) output ----------------------------
+
+type sexp struct {
+	atom string
+	list []*sexp
+}
+
+func parseSexps(s string) []*sexp {
+	var out []*sexp
+	pos := 0
+	var parse func() *sexp
+	skip := func() {
+		for pos < len(s) && (s[pos] == ' ' || s[pos] == '\n' || s[pos] == '\t' || s[pos] == '\r') {
+			pos++
+		}
+	}
+	parse = func() *sexp {
+		skip()
+		if pos >= len(s) {
+			return nil
+		}
+		if s[pos] == '(' {
+			pos++
+			n := &sexp{list: []*sexp{}}
+			for {
+				skip()
+				if pos >= len(s) {
+					return n
+				}
+				if s[pos] == ')' {
+					pos++
+					return n
+				}
+				n.list = append(n.list, parse())
+			}
+		}
+		if s[pos] == '|' {
+			j := strings.IndexByte(s[pos+1:], '|')
+			a := s[pos : pos+j+2]
+			pos += j + 2
+			return &sexp{atom: a}
+		}
+		j := pos
+		for j < len(s) && !strings.ContainsRune(" \n\t\r()", rune(s[j])) {
+			j++
+		}
+		a := s[pos:j]
+		pos = j
+		return &sexp{atom: a}
+	}
+	for {
+		skip()
+		if pos >= len(s) {
+			break
+		}
+		out = append(out, parse())
+	}
+	return out
+}
+
+// modelInt decodes an Int or BitVec model value.
+func modelInt(v *sexp, signedWidth int) (*big.Int, bool) {
+	if v == nil {
+		return nil, false
+	}
+	if v.list == nil {
+		a := v.atom
+		switch {
+		case strings.HasPrefix(a, "#x"):
+			n, ok := new(big.Int).SetString(a[2:], 16)
+			if ok && signedWidth > 0 && n.Bit(signedWidth-1) == 1 {
+				n.Sub(n, pow2(signedWidth))
+			}
+			return n, ok
+		case strings.HasPrefix(a, "#b"):
+			n, ok := new(big.Int).SetString(a[2:], 2)
+			if ok && signedWidth > 0 && n.Bit(signedWidth-1) == 1 {
+				n.Sub(n, pow2(signedWidth))
+			}
+			return n, ok
+		}
+		n, ok := new(big.Int).SetString(a, 10)
+		return n, ok
+	}
+	if len(v.list) == 2 && v.list[0].atom == "-" {
+		n, ok := modelInt(v.list[1], 0)
+		if ok {
+			return n.Neg(n), true
+		}
+	}
+	if len(v.list) == 3 && v.list[0].atom == "_" && strings.HasPrefix(v.list[1].atom, "bv") {
+		n, ok := new(big.Int).SetString(v.list[1].atom[2:], 10)
+		w, _ := strconv.Atoi(v.list[2].atom)
+		if ok && signedWidth > 0 && w == signedWidth && n.Bit(w-1) == 1 {
+			n.Sub(n, pow2(w))
+		}
+		return n, ok
+	}
+	return nil, false
+}
+
+// ---- replayable parameter kinds -------------------------------------------
+
+type rparam struct {
+	name   string
+	t      types.Type
+	kind   string // int bool slice arrayptr
+	elem   types.Type
+	n      int64 // array length
+	goType string
+}
+
+func goTypeString(t types.Type, pkg *types.Package) string {
+	return types.TypeString(t, func(p *types.Package) string {
+		if p == pkg {
+			return ""
+		}
+		return p.Name()
+	})
+}
+
+func (x *fx) replayParams() ([]rparam, string) {
+	var out []rparam
+	if len(x.fn.FreeVars) > 0 {
+		return nil, "closure with captured variables"
+	}
+	if x.fn.Signature.Recv() != nil {
+		return nil, "method receiver cannot be built from a model"
+	}
+	pkg := x.fn.Pkg
+	var tp *types.Package
+	if pkg != nil {
+		tp = pkg.Pkg
+	} else if o := x.fn.Origin(); o != nil && o.Pkg != nil {
+		tp = o.Pkg.Pkg
+	}
+	for _, p := range x.fn.Params {
+		rp := rparam{name: p.Name(), t: p.Type(), goType: goTypeString(p.Type(), tp)}
+		switch u := p.Type().Underlying().(type) {
+		case *types.Basic:
+			switch {
+			case u.Info()&types.IsInteger != 0:
+				rp.kind = "int"
+			case u.Info()&types.IsBoolean != 0:
+				rp.kind = "bool"
+			default:
+				return nil, "parameter " + p.Name() + " of type " + p.Type().String()
+			}
+		case *types.Slice:
+			if _, ok := isInt(u.Elem()); !ok && !isBool(u.Elem()) {
+				return nil, "parameter " + p.Name() + " of type " + p.Type().String()
+			}
+			rp.kind, rp.elem = "slice", u.Elem()
+		case *types.Pointer:
+			a, ok := u.Elem().Underlying().(*types.Array)
+			if !ok {
+				return nil, "parameter " + p.Name() + " of type " + p.Type().String()
+			}
+			if _, ok := isInt(a.Elem()); !ok {
+				return nil, "parameter " + p.Name() + " of type " + p.Type().String()
+			}
+			rp.kind, rp.elem, rp.n = "arrayptr", a.Elem(), a.Len()
+		default:
+			return nil, "parameter " + p.Name() + " of type " + p.Type().String()
+		}
+		out = append(out, rp)
+	}
+	return out, ""
+}
+
+const maxReplayLen = 48
+
+// modelInputs asks the solver for a (preferably small) model of the failed
+// obligation and decodes the function's inputs as Go literals.
+func (x *fx) modelInputs(o *Oblig, ps []rparam, work string) (map[string]string, string, error) {
+	var gets []string
+	for _, p := range ps {
+		v := x.vals[x.paramByName(p.name)]
+		switch p.kind {
+		case "int", "bool":
+			gets = append(gets, v.S)
+		case "slice":
+			gets = append(gets, slLen(v.S), slCap(v.S))
+			for k := 0; k < maxReplayLen; k++ {
+				gets = append(gets, x.memRead(x.entryMem, x.memName(p.elem), slBase(v.S), x.iadd(slOff(v.S), x.idxConst(int64(k)))))
+			}
+		case "arrayptr":
+			for k := int64(0); k < p.n; k++ {
+				gets = append(gets, x.memRead(x.entryMem, x.memName(p.elem), ptrRef(v.S), x.iadd(ptrOff(v.S), x.idxConst(k))))
+			}
+		}
+	}
+	var small []string
+	for _, p := range ps {
+		if p.kind == "slice" {
+			v := x.vals[x.paramByName(p.name)]
+			small = append(small, "(assert "+x.ile(slCap(v.S), x.idxConst(maxReplayLen))+")")
+		}
+	}
+	for attempt := 0; attempt < 2; attempt++ {
+		extra := ""
+		if attempt == 0 {
+			extra = strings.Join(small, "\n")
+		}
+		q := o.Query(true, extra) + "(get-value (" + strings.Join(gets, " ") + "))\n"
+		file := filepath.Join(work, fileSafe.ReplaceAllString(o.Name, "_")+fmt.Sprintf(".model%d.smt2", attempt))
+		os.WriteFile(file, []byte(q), 0o644)
+		for _, sp := range solvers[:2] {
+			res, text, _ := runSolver(context.Background(), sp, file, 20)
+			if res != "sat" {
+				continue
+			}
+			rest := text[strings.Index(text, "sat")+3:]
+			sx := parseSexps(rest)
+			if len(sx) == 0 || len(sx[0].list) != len(gets) {
+				continue
+			}
+			vals := sx[0].list
+			lits := map[string]string{}
+			k := 0
+			next := func() *sexp { v := vals[k].list[1]; k++; return v }
+			okAll := true
+			intLit := func(v *sexp, t types.Type) string {
+				w := 0
+				if intSigned(t) {
+					w = intWidth(t)
+				}
+				n, ok := modelInt(v, w)
+				if !ok {
+					okAll = false
+					return "0"
+				}
+				return n.String()
+			}
+			for _, p := range ps {
+				switch p.kind {
+				case "int":
+					lits[p.name] = fmt.Sprintf("%s(%s)", p.goType, intLit(next(), p.t))
+				case "bool":
+					lits[p.name] = next().atom
+				case "slice":
+					ln, _ := modelInt(next(), 64)
+					cp, _ := modelInt(next(), 64)
+					var es []string
+					for j := 0; j < maxReplayLen; j++ {
+						v := next()
+						if ln != nil && int64(j) < ln.Int64() {
+							if isBool(p.elem) {
+								es = append(es, v.atom)
+							} else {
+								es = append(es, intLit(v, p.elem))
+							}
+						}
+					}
+					if ln == nil || cp == nil || ln.Int64() > maxReplayLen {
+						okAll = false
+						break
+					}
+					_ = cp
+					lits[p.name] = fmt.Sprintf("%s{%s}", p.goType, strings.Join(es, ", "))
+				case "arrayptr":
+					var es []string
+					for j := int64(0); j < p.n; j++ {
+						es = append(es, intLit(next(), p.elem))
+					}
+					lits[p.name] = fmt.Sprintf("&%s{%s}", strings.TrimPrefix(p.goType, "*"), strings.Join(es, ", "))
+				}
+			}
+			if okAll {
+				return lits, truncate(rest, 1500), nil
+			}
+		}
+	}
+	return nil, "", fmt.Errorf("no decodable small model (slices longer than %d elements or solver gave no model)", maxReplayLen)
+}
+
+func (x *fx) paramByName(n string) ssa.Value {
+	for _, p := range x.fn.Params {
+		if p.Name() == n {
+			return p
+		}
+	}
 	return nil
+}
+
+// ---- contract expression -> Go --------------------------------------------
+
+type goGen struct {
+	x       *fx
+	params  map[string]rparam
+	results []string // names of results (result0..)
+	named   map[string]int
+	err     error
+	intMode bool
+}
+
+func (gg *goGen) fail(f string, a ...any) string {
+	if gg.err == nil {
+		gg.err = fmt.Errorf(f, a...)
+	}
+	return "false"
+}
+
+// leafIsInt reports whether a leaf expression denotes an integer (so that int
+// mode can widen it to int and evaluate the contract mathematically).
+func (gg *goGen) exprType(e *Expr, bound map[string]bool, old bool) string {
+	switch e.Op {
+	case "num":
+		return "int"
+	case "id":
+		if bound[e.Name] {
+			return "int"
+		}
+		if e.Name == "true" || e.Name == "false" {
+			return "bool"
+		}
+		if p, ok := gg.params[e.Name]; ok {
+			if p.kind == "int" {
+				return "int"
+			}
+			return p.kind
+		}
+		if k, ok := gg.resultIndex(e.Name); ok {
+			rt := gg.x.fn.Signature.Results().At(k).Type()
+			if _, ok := isInt(rt); ok {
+				return "int"
+			}
+			if isBool(rt) {
+				return "bool"
+			}
+			return "other"
+		}
+	case "index":
+		return "elem"
+	case "call":
+		if e.Args[0].Op == "id" {
+			switch e.Args[0].Name {
+			case "len", "cap":
+				return "int"
+			}
+		}
+	}
+	return "other"
+}
+
+func (gg *goGen) resultIndex(name string) (int, bool) {
+	if strings.HasPrefix(name, "result") {
+		k := 0
+		if name != "result" {
+			var err error
+			k, err = strconv.Atoi(name[6:])
+			if err != nil {
+				return 0, false
+			}
+		}
+		return k, k < gg.x.fn.Signature.Results().Len()
+	}
+	if k, ok := gg.named[name]; ok {
+		return k, true
+	}
+	return 0, false
+}
+
+func (gg *goGen) gen(e *Expr, bound map[string]bool, old bool) string {
+	wrapInt := func(s string, isInt bool) string {
+		if gg.intMode && isInt {
+			return "int(" + s + ")"
+		}
+		return s
+	}
+	switch e.Op {
+	case "num":
+		return e.Num
+	case "id":
+		switch e.Name {
+		case "true", "false", "nil":
+			return e.Name
+		}
+		if bound[e.Name] {
+			return e.Name
+		}
+		if p, ok := gg.params[e.Name]; ok {
+			n := p.name
+			if old && p.kind != "int" && p.kind != "bool" {
+				n = "old_" + n
+			} else if p.kind == "int" || p.kind == "bool" {
+				n = "in_" + n
+			}
+			return wrapInt(n, p.kind == "int")
+		}
+		if k, ok := gg.resultIndex(e.Name); ok {
+			rt := gg.x.fn.Signature.Results().At(k).Type()
+			_, isI := isInt(rt)
+			return wrapInt(fmt.Sprintf("result%d", k), isI)
+		}
+		return gg.fail("name %s is not available in a replay", e.Name)
+	case "old":
+		return gg.gen(e.Args[0], bound, true)
+	case "un":
+		return "(" + e.Name + gg.gen(e.Args[0], bound, old) + ")"
+	case "bin":
+		a, b := gg.gen(e.Args[0], bound, old), gg.gen(e.Args[1], bound, old)
+		switch e.Name {
+		case "==>":
+			return "(!(" + a + ") || (" + b + "))"
+		case "<==>":
+			return "((" + a + ") == (" + b + "))"
+		}
+		if e.Name == "==" || e.Name == "!=" {
+			// slice equality: same header
+			if gg.isSliceExpr(e.Args[0]) || gg.isSliceExpr(e.Args[1]) {
+				eq := fmt.Sprintf("sameSlice(%s, %s)", a, b)
+				if e.Name == "!=" {
+					eq = "!" + eq
+				}
+				return eq
+			}
+		}
+		return "(" + a + " " + e.Name + " " + b + ")"
+	case "cond":
+		return fmt.Sprintf("ite(%s, %s, %s)", gg.gen(e.Args[0], bound, old), gg.gen(e.Args[1], bound, old), gg.gen(e.Args[2], bound, old))
+	case "index":
+		s := gg.gen(e.Args[0], bound, old)
+		i := gg.gen(e.Args[1], bound, old)
+		return wrapInt(s+"["+i+"]", gg.elemIsInt(e.Args[0]))
+	case "slice":
+		s := gg.gen(e.Args[0], bound, old) + "["
+		if e.Args[1] != nil {
+			s += gg.gen(e.Args[1], bound, old)
+		}
+		s += ":"
+		if e.Args[2] != nil {
+			s += gg.gen(e.Args[2], bound, old)
+		}
+		return s + "]"
+	case "forall", "exists":
+		if len(e.Args) != 3 {
+			return gg.fail("unbounded quantifier is not executable")
+		}
+		nb := map[string]bool{}
+		for k := range bound {
+			nb[k] = true
+		}
+		nb[e.Name] = true
+		lo, hi := gg.gen(e.Args[0], bound, old), gg.gen(e.Args[1], bound, old)
+		body := gg.gen(e.Args[2], nb, old)
+		if e.Op == "forall" {
+			return fmt.Sprintf("func() bool { for %s := int(%s); %s < int(%s); %s++ { if !(%s) { return false } }; return true }()", e.Name, lo, e.Name, hi, e.Name, body)
+		}
+		return fmt.Sprintf("func() bool { for %s := int(%s); %s < int(%s); %s++ { if %s { return true } }; return false }()", e.Name, lo, e.Name, hi, e.Name, body)
+	case "call":
+		f := e.Args[0]
+		if f.Op == "id" {
+			switch f.Name {
+			case "len", "cap":
+				return "int(" + f.Name + "(" + gg.gen(e.Args[1], bound, old) + "))"
+			case "min", "max":
+				return fmt.Sprintf("%s(%s, %s)", f.Name, gg.gen(e.Args[1], bound, old), gg.gen(e.Args[2], bound, old))
+			case "base", "fresh", "typeis", "isnan":
+				return gg.fail("%s() is not executable", f.Name)
+			}
+			if sf := gg.x.g.lookupSpec(gg.x.c.Pkg, f.Name); sf != nil {
+				if sf.Body == nil || sf.Rec {
+					return gg.fail("spec function %s has no executable definition", sf.Name)
+				}
+				// inline: bind parameters to argument expressions via a closure
+				var ps, as []string
+				sub := &goGen{x: gg.x, params: map[string]rparam{}, named: map[string]int{}, intMode: gg.intMode}
+				for i, p := range sf.Params {
+					ps = append(ps, p.Name+" "+p.Type)
+					as = append(as, gg.rawArg(e.Args[1+i], bound, old))
+					k := "other"
+					t := strings.TrimSpace(p.Type)
+					switch {
+					case strings.HasPrefix(t, "[]"):
+						k = "slice"
+					case t == "bool":
+						k = "bool"
+					case strings.HasPrefix(t, "int") || strings.HasPrefix(t, "uint") || t == "byte":
+						k = "int"
+					}
+					sub.params[p.Name] = rparam{name: p.Name, kind: k, goType: p.Type, elem: sliceElemOf(t)}
+				}
+				body := sub.genSpecBody(sf.Body)
+				if sub.err != nil {
+					return gg.fail("%v", sub.err)
+				}
+				return fmt.Sprintf("func(%s) %s { return %s }(%s)", strings.Join(ps, ", "), sf.Ret, body, strings.Join(as, ", "))
+			}
+			// conversion
+			if t := gg.x.resolveType(f.Name, &specEnv{pkg: gg.x.fn.Pkg.Pkg}); t != nil && len(e.Args) == 2 {
+				if gg.intMode {
+					return "int(" + f.Name + "(" + gg.rawArg(e.Args[1], bound, old) + "))"
+				}
+				return f.Name + "(" + gg.gen(e.Args[1], bound, old) + ")"
+			}
+		}
+		return gg.fail("call %s is not executable", e)
+	}
+	return gg.fail("expression %s is not executable", e)
+}
+
+func sliceElemOf(t string) types.Type {
+	switch strings.TrimPrefix(t, "[]") {
+	case "byte", "uint8":
+		return tByte
+	case "int32":
+		return types.Typ[types.Int32]
+	case "int64":
+		return types.Typ[types.Int64]
+	case "uint32":
+		return types.Typ[types.Uint32]
+	case "uint64":
+		return types.Typ[types.Uint64]
+	case "int":
+		return tInt
+	}
+	return nil
+}
+
+// genSpecBody translates the body of an inlined spec function: its parameters
+// are plain Go variables of the closure.
+func (gg *goGen) genSpecBody(e *Expr) string {
+	for n, p := range gg.params {
+		if p.kind == "int" {
+			p.kind = "vint"
+		} else {
+			p.kind = "v"
+		}
+		gg.params[n] = p
+	}
+	return gg.genV(e, map[string]bool{})
+}
+
+// genV: translation inside an inlined spec function body.
+func (gg *goGen) genV(e *Expr, bound map[string]bool) string {
+	if e.Op == "id" {
+		if p, ok := gg.params[e.Name]; ok && !bound[e.Name] {
+			if p.kind == "vint" && gg.intMode {
+				return "int(" + e.Name + ")"
+			}
+			return e.Name
+		}
+	}
+	if e.Op == "index" {
+		s := gg.genV(e.Args[0], bound)
+		i := gg.genV(e.Args[1], bound)
+		isI := false
+		if e.Args[0].Op == "id" {
+			if p, ok := gg.params[e.Args[0].Name]; ok && p.elem != nil {
+				_, isI = isInt(p.elem)
+			}
+		}
+		if gg.intMode && isI {
+			return "int(" + s + "[" + i + "])"
+		}
+		return s + "[" + i + "]"
+	}
+	switch e.Op {
+	case "num":
+		return e.Num
+	case "id":
+		return e.Name
+	case "old":
+		return gg.genV(e.Args[0], bound)
+	case "un":
+		return "(" + e.Name + gg.genV(e.Args[0], bound) + ")"
+	case "bin":
+		a, b := gg.genV(e.Args[0], bound), gg.genV(e.Args[1], bound)
+		switch e.Name {
+		case "==>":
+			return "(!(" + a + ") || (" + b + "))"
+		case "<==>":
+			return "((" + a + ") == (" + b + "))"
+		}
+		return "(" + a + " " + e.Name + " " + b + ")"
+	case "cond":
+		return fmt.Sprintf("ite(%s, %s, %s)", gg.genV(e.Args[0], bound), gg.genV(e.Args[1], bound), gg.genV(e.Args[2], bound))
+	case "slice":
+		s := gg.genV(e.Args[0], bound) + "["
+		if e.Args[1] != nil {
+			s += gg.genV(e.Args[1], bound)
+		}
+		s += ":"
+		if e.Args[2] != nil {
+			s += gg.genV(e.Args[2], bound)
+		}
+		return s + "]"
+	case "forall", "exists":
+		if len(e.Args) != 3 {
+			return gg.fail("unbounded quantifier is not executable")
+		}
+		nb := map[string]bool{}
+		for k := range bound {
+			nb[k] = true
+		}
+		nb[e.Name] = true
+		lo, hi := gg.genV(e.Args[0], bound), gg.genV(e.Args[1], bound)
+		body := gg.genV(e.Args[2], nb)
+		if e.Op == "forall" {
+			return fmt.Sprintf("func() bool { for %s := int(%s); %s < int(%s); %s++ { if !(%s) { return false } }; return true }()", e.Name, lo, e.Name, hi, e.Name, body)
+		}
+		return fmt.Sprintf("func() bool { for %s := int(%s); %s < int(%s); %s++ { if %s { return true } }; return false }()", e.Name, lo, e.Name, hi, e.Name, body)
+	case "call":
+		f := e.Args[0]
+		if f.Op == "id" {
+			switch f.Name {
+			case "len", "cap":
+				return "int(" + f.Name + "(" + gg.genV(e.Args[1], bound) + "))"
+			case "min", "max":
+				return fmt.Sprintf("%s(%s, %s)", f.Name, gg.genV(e.Args[1], bound), gg.genV(e.Args[2], bound))
+			}
+			if _, isParam := gg.params[f.Name]; isParam {
+				var as []string
+				for _, a := range e.Args[1:] {
+					as = append(as, gg.genV(a, bound))
+				}
+				return "int(" + f.Name + "(" + strings.Join(as, ", ") + "))"
+			}
+		}
+		if f.Op == "field" {
+			var as []string
+			for _, a := range e.Args[1:] {
+				as = append(as, gg.genV(a, bound))
+			}
+			return gg.genV(f.Args[0], bound) + "." + f.Name + "(" + strings.Join(as, ", ") + ")"
+		}
+		return gg.fail("call %s inside a spec function is not executable", e)
+	}
+	return gg.fail("expression %s is not executable", e)
+}
+
+// rawArg: an argument passed to an inlined spec function keeps its Go type
+// (no int() widening of the whole argument).
+func (gg *goGen) rawArg(e *Expr, bound map[string]bool, old bool) string {
+	save := gg.intMode
+	if e.Op == "id" || e.Op == "old" || e.Op == "slice" {
+		gg.intMode = false
+	}
+	r := gg.gen(e, bound, old)
+	gg.intMode = save
+	return r
+}
+
+func (gg *goGen) isSliceExpr(e *Expr) bool {
+	switch e.Op {
+	case "id":
+		if p, ok := gg.params[e.Name]; ok {
+			return p.kind == "slice"
+		}
+		if k, ok := gg.resultIndex(e.Name); ok {
+			_, isS := gg.x.fn.Signature.Results().At(k).Type().Underlying().(*types.Slice)
+			return isS
+		}
+	case "slice":
+		return true
+	case "old":
+		return gg.isSliceExpr(e.Args[0])
+	}
+	return false
+}
+
+func (gg *goGen) elemIsInt(e *Expr) bool {
+	switch e.Op {
+	case "id":
+		if p, ok := gg.params[e.Name]; ok && p.elem != nil {
+			_, ok := isInt(p.elem)
+			return ok
+		}
+		if k, ok := gg.resultIndex(e.Name); ok {
+			switch u := gg.x.fn.Signature.Results().At(k).Type().Underlying().(type) {
+			case *types.Slice:
+				_, ok := isInt(u.Elem())
+				return ok
+			}
+		}
+	case "old", "slice":
+		return gg.elemIsInt(e.Args[0])
+	}
+	return false
+}
+
+// ---- test generation -------------------------------------------------------
+
+func (g *Gen) replayOnRealCode(o *Oblig, work, repo, verif string) map[string]any {
+	x := o.fx
+	if x == nil || x.fn == nil {
+		return nil
+	}
+	if x.c.Replay == "none" {
+		return map[string]any{"replay_skipped": "replay disabled for this contract"}
+	}
+	ps, why := x.replayParams()
+	if ps == nil {
+		return map[string]any{"replay_skipped": "inputs of this function cannot be built from a solver model (" + why + ")"}
+	}
+	res := x.fn.Signature.Results()
+	gg := &goGen{x: x, params: map[string]rparam{}, named: map[string]int{}, intMode: x.mode == ModeInt}
+	for _, p := range ps {
+		gg.params[p.name] = p
+	}
+	for k := 0; k < res.Len(); k++ {
+		if n := res.At(k).Name(); n != "" && n != "_" {
+			gg.named[n] = k
+		}
+	}
+	var reqs, enss []string
+	for _, cl := range x.c.Requires {
+		reqs = append(reqs, gg.gen(cl.E, map[string]bool{}, false))
+	}
+	var labels []string
+	for k, cl := range x.c.Ensures {
+		enss = append(enss, gg.gen(cl.E, map[string]bool{}, false))
+		labels = append(labels, clauseLabel(cl, k))
+	}
+	if gg.err != nil {
+		return map[string]any{"replay_skipped": "contract is not executable: " + gg.err.Error()}
+	}
+	lits, modelText, err := x.modelInputs(o, ps, work)
+	modelNote := ""
+	if err != nil {
+		modelNote = err.Error()
+	}
+	pkgT := x.fn.Pkg
+	if pkgT == nil && x.fn.Origin() != nil {
+		pkgT = x.fn.Origin().Pkg
+	}
+	src := genReplayTest(x, ps, lits, reqs, enss, labels, pkgT.Pkg.Name())
+	pkgDir := filepath.Join(repo, strings.TrimPrefix(strings.TrimPrefix(x.c.Pkg, repoModule), "/"))
+	testFile := filepath.Join(work, fileSafe.ReplaceAllString(o.Name, "_")+"_replay_test.go")
+	os.WriteFile(testFile, []byte(src), 0o644)
+	ov := map[string]any{"Replace": map[string]string{filepath.Join(pkgDir, "zz_verif_replay_test.go"): testFile}}
+	ovb, _ := json.Marshal(ov)
+	ovFile := filepath.Join(work, fileSafe.ReplaceAllString(o.Name, "_")+"_overlay.json")
+	os.WriteFile(ovFile, ovb, 0o644)
+	tags := "verif"
+	if x.c.Tags != "" {
+		tags += "," + x.c.Tags
+	}
+	seed := os.Getenv("VERIF_SEED")
+	if seed == "" {
+		seed = "1"
+	}
+	cmdline := fmt.Sprintf("cd %s && ulimit -v 12000000 && VERIF_SEED=%s go test -overlay %s -v -vet=off -count=1 -timeout 120s -tags %s -run '^TestVerifReplay$' .", pkgDir, seed, ovFile, tags)
+	ctx, cancel := context.WithTimeout(context.Background(), 300*time.Second)
+	defer cancel()
+	cmd := exec.CommandContext(ctx, "bash", "-c", cmdline)
+	cmd.Env = append(os.Environ(), "GOFLAGS=-mod=mod", "GOPROXY=off", "GOTOOLCHAIN=auto")
+	out, _ := cmd.CombinedOutput()
+	text := string(out)
+	r := map[string]any{"replay_test": testFile, "replay_cmd": cmdline, "replay_output": truncate(text, 6000), "model": modelText, "model_inputs": lits}
+	if modelNote != "" {
+		r["model_note"] = modelNote
+	}
+	switch {
+	case strings.Contains(text, "REPLAY-RESULT: REPRODUCED-MODEL"):
+		r["reproduced"] = true
+		r["how"] = "the solver's model, run on the real code, violates the contract"
+	case strings.Contains(text, "REPLAY-RESULT: REPRODUCED-ENUM"):
+		r["reproduced"] = true
+		r["how"] = "the solver's model did not reproduce, but the executable contract run over a seeded small-scope enumeration found a failing input on the real code"
+	case strings.Contains(text, "REPLAY-RESULT: NOT-REPRODUCED"):
+		r["reproduced"] = false
+		r["replay_skipped"] = "neither the solver's model nor the small-scope enumeration violates the executable contract on the real code"
+	default:
+		r["reproduced"] = false
+		r["replay_skipped"] = "the replay test did not build or run (see replay_output)"
+	}
+	return r
+}
+
+func genReplayTest(x *fx, ps []rparam, lits map[string]string, reqs, enss, labels []string, pkgName string) string {
+	var b strings.Builder
+	_, fname := fnKey(x.fn)
+	res := x.fn.Signature.Results()
+	tp := x.fn.Pkg
+	if tp == nil && x.fn.Origin() != nil {
+		tp = x.fn.Origin().Pkg
+	}
+	fmt.Fprintf(&b, "package %s\n\nimport (\n\t\"fmt\"\n\t\"math/rand\"\n\t\"os\"\n\t\"strconv\"\n\t\"testing\"\n)\n\n", pkgName)
+	b.WriteString("func ite[T any](c bool, a, b T) T { if c { return a }; return b }\n")
+	b.WriteString("func sameSlice[T any](a, b []T) bool { if len(a) != len(b) { return false }; if len(a) == 0 { return true }; return &a[0] == &b[0] }\n\n")
+	// one evaluation of the executable contract
+	b.WriteString("func verifReplayOnce(")
+	for i, p := range ps {
+		if i > 0 {
+			b.WriteString(", ")
+		}
+		fmt.Fprintf(&b, "%s %s", p.name, p.goType)
+	}
+	b.WriteString(") (admissible bool, violated string) {\n")
+	for _, p := range ps {
+		switch p.kind {
+		case "int", "bool":
+			fmt.Fprintf(&b, "\tin_%s := %s\n", p.name, p.name)
+		case "slice":
+			fmt.Fprintf(&b, "\told_%s := append(%s(nil), %s...)\n", p.name, p.goType, p.name)
+		case "arrayptr":
+			fmt.Fprintf(&b, "\told_%s_v := *%s\n\told_%s := &old_%s_v\n", p.name, p.name, p.name, p.name)
+		}
+		fmt.Fprintf(&b, "\t_ = %s\n", map[string]string{"int": "in_" + p.name, "bool": "in_" + p.name, "slice": "old_" + p.name, "arrayptr": "old_" + p.name}[p.kind])
+	}
+	for _, r := range reqs {
+		fmt.Fprintf(&b, "\tif !(%s) {\n\t\treturn false, \"\"\n\t}\n", r)
+	}
+	for k := 0; k < res.Len(); k++ {
+		fmt.Fprintf(&b, "\tvar result%d %s\n\t_ = result%d\n", k, goTypeString(res.At(k).Type(), tp.Pkg), k)
+	}
+	var lhs []string
+	for k := 0; k < res.Len(); k++ {
+		lhs = append(lhs, fmt.Sprintf("result%d", k))
+	}
+	var args []string
+	for _, p := range ps {
+		args = append(args, p.name)
+	}
+	call := fname + "(" + strings.Join(args, ", ") + ")"
+	if len(lhs) > 0 {
+		call = strings.Join(lhs, ", ") + " = " + call
+	}
+	fmt.Fprintf(&b, "\tpanicked := func() (p any) {\n\t\tdefer func() { p = recover() }()\n\t\t%s\n\t\treturn nil\n\t}()\n", call)
+	b.WriteString("\tif panicked != nil {\n\t\treturn true, fmt.Sprintf(\"panic: %v\", panicked)\n\t}\n")
+	for k, e := range enss {
+		fmt.Fprintf(&b, "\tif ok := func() (ok bool) {\n\t\tdefer func() { if recover() != nil { ok = false } }()\n\t\treturn %s\n\t}(); !ok {\n\t\treturn true, \"ensures %s is false\"\n\t}\n", e, labels[k])
+	}
+	b.WriteString("\treturn true, \"\"\n}\n\n")
+	// boundary values
+	b.WriteString(`func verifPick(r *rand.Rand, bits int, signed bool) int64 {
+	b := []int64{0, 1, 2, 3, 7, 8, 127, 128, 254, 255, 256}
+	if bits >= 32 { b = append(b, 1<<31-1, 1<<31, 1<<32-1) }
+	if bits >= 64 { b = append(b, 1<<63-1, -1<<63) }
+	v := b[r.Intn(len(b))]
+	if r.Intn(3) == 0 { v = r.Int63() >> uint(r.Intn(63)) }
+	if signed && r.Intn(2) == 0 { v = -v }
+	return v
+}
+
+`)
+	b.WriteString("func TestVerifReplay(t *testing.T) {\n")
+	if lits != nil {
+		b.WriteString("\t{\n")
+		for _, p := range ps {
+			fmt.Fprintf(&b, "\t\t%s := %s\n", p.name, lits[p.name])
+		}
+		fmt.Fprintf(&b, "\t\tinput := fmt.Sprintf(\"%s\"", strings.Repeat("%v ", len(ps)))
+		for _, p := range ps {
+			if p.kind == "arrayptr" {
+				fmt.Fprintf(&b, ", *%s", p.name)
+			} else {
+				fmt.Fprintf(&b, ", %s", p.name)
+			}
+		}
+		b.WriteString(")\n")
+		fmt.Fprintf(&b, "\t\tadm, viol := verifReplayOnce(%s)\n", strings.Join(args, ", "))
+		b.WriteString("\t\tfmt.Println(\"REPLAY: model input:\", input, \"admissible:\", adm, \"violation:\", viol)\n")
+		b.WriteString("\t\tif adm && viol != \"\" {\n\t\t\tfmt.Println(\"REPLAY-RESULT: REPRODUCED-MODEL\", viol)\n\t\t\treturn\n\t\t}\n\t}\n")
+	}
+	// small-scope enumeration
+	b.WriteString("\tseed, _ := strconv.ParseInt(os.Getenv(\"VERIF_SEED\"), 10, 64)\n\tr := rand.New(rand.NewSource(seed))\n\ttried := 0\n")
+	b.WriteString("\tfor iter := 0; iter < 200000 && tried < 20000; iter++ {\n")
+	for _, p := range ps {
+		switch p.kind {
+		case "int":
+			fmt.Fprintf(&b, "\t\t%s := %s(verifPick(r, %d, %v))\n", p.name, p.goType, intWidth(p.t), intSigned(p.t))
+		case "bool":
+			fmt.Fprintf(&b, "\t\t%s := r.Intn(2) == 0\n", p.name)
+		case "slice":
+			fmt.Fprintf(&b, "\t\t%s := make(%s, r.Intn(7), 8)\n", p.name, p.goType)
+			if isBool(p.elem) {
+				fmt.Fprintf(&b, "\t\tfor i := range %s { %s[i] = r.Intn(2) == 0 }\n", p.name, p.name)
+			} else {
+				fmt.Fprintf(&b, "\t\tfor i := range %s { %s[i] = %s(verifPick(r, %d, %v)) }\n", p.name, p.name, goTypeString(p.elem, tp.Pkg), intWidth(p.elem), intSigned(p.elem))
+			}
+		case "arrayptr":
+			fmt.Fprintf(&b, "\t\t%s := new(%s)\n\t\tfor i := range %s { %s[i] = %s(verifPick(r, %d, %v)) }\n", p.name, strings.TrimPrefix(p.goType, "*"), p.name, p.name, goTypeString(p.elem, tp.Pkg), intWidth(p.elem), intSigned(p.elem))
+		}
+	}
+	fmt.Fprintf(&b, "\t\tinput := fmt.Sprintf(\"%s\"", strings.Repeat("%v ", len(ps)))
+	for _, p := range ps {
+		if p.kind == "arrayptr" {
+			fmt.Fprintf(&b, ", *%s", p.name)
+		} else {
+			fmt.Fprintf(&b, ", %s", p.name)
+		}
+	}
+	b.WriteString(")\n")
+	fmt.Fprintf(&b, "\t\tadm, viol := verifReplayOnce(%s)\n", strings.Join(args, ", "))
+	b.WriteString("\t\tif adm {\n\t\t\ttried++\n\t\t}\n")
+	b.WriteString("\t\tif adm && viol != \"\" {\n\t\t\tfmt.Println(\"REPLAY: enumerated input (before the call):\", input, \"violation:\", viol)\n\t\t\tfmt.Println(\"REPLAY-RESULT: REPRODUCED-ENUM\", viol)\n\t\t\treturn\n\t\t}\n\t}\n")
+	b.WriteString("\tfmt.Println(\"REPLAY-RESULT: NOT-REPRODUCED admissible inputs tried:\", tried)\n}\n")
+	return b.String()
+}
+
+func cmdReplay(args []string) int {
+	if len(args) == 0 {
+		fmt.Println("usage: vcgen replay <replay-file.json>")
+		return 2
+	}
+	path := args[len(args)-1]
+	b, err := os.ReadFile(path)
+	if err != nil {
+		fmt.Println(err)
+		return 2
+	}
+	var rep map[string]any
+	if err := json.Unmarshal(b, &rep); err != nil {
+		fmt.Println(err)
+		return 2
+	}
+	fmt.Printf("obligation: %v\nfunction:   %v\ncontract:   %v\n", rep["obligation"], rep["function"], rep["contract"])
+	if cmdline, ok := rep["replay_cmd"].(string); ok {
+		cmd := exec.Command("bash", "-c", cmdline)
+		cmd.Env = append(os.Environ(), "GOFLAGS=-mod=mod", "GOPROXY=off", "GOTOOLCHAIN=auto")
+		out, _ := cmd.CombinedOutput()
+		fmt.Print(string(out))
+		if strings.Contains(string(out), "REPLAY-RESULT: REPRODUCED") {
+			fmt.Printf("VIOLATION property=%v replay=%s\n", rep["property"], path)
+			return 1
+		}
+		return 0
+	}
+	// no executable replay: re-run the solver on the recorded query
+	if q, ok := rep["query_file"].(string); ok {
+		for _, sp := range solvers {
+			res, _, el := runSolver(context.Background(), sp, q, 30)
+			fmt.Printf("%s: %s (%.2fs)\n", sp.name, res, el)
+		}
+		fmt.Printf("VIOLATION property=%v replay=%s no-failing-input-found\n", rep["property"], path)
+		return 1
+	}
+	fmt.Println(rep["note"])
+	return 1
 }
